@@ -81,7 +81,7 @@ pub fn check_range(origin: &str, r: &Range, from_parse: bool, st: &mut Stats) ->
             }
         }
     }
-    if let Err(m) = display_survives_failing_writer(r, &p1) {
+    if let Err(m) = display_survives_failing_writer(r, &p1, &|s| Range::parse(s).map(|x| x == *r || x.to_string() == p1).unwrap_or(false)) {
         return Err(Failure::new("display-depends-on-history", format!("{}: {}", origin, m)));
     }
     // stable after one round
